@@ -235,11 +235,34 @@ def check_templates(fx, rep):
         rep.check(not bad, 'R16.2', 'declaration-order|%s|%s' % (f.split('/')[-1], n['name']), '%s:%s' % (f, n.get('line')),
                   'fields / variants are emitted in declaration order into one list',
                   'the described members are not emitted in declaration order: %s' % '; '.join(bad))
+        # R16.7 every declared member is described: the walk over the declaration neither skips nor stops
+        dropped = []
+        for lp in loops:
+            for x, path in A.nodes_with_path(lp.get('body')):
+                if x.get('k') in ('continue', 'break') and not any(p.get('k') in ('for', 'while', 'loop', 'closure') for p in path):
+                    dropped.append('`%s` at line %s in the loop over %s' % (x.get('k'), x.get('line', '?'), re.sub(r'\s', '', lp.get('iter') or '')[:40]))
+            names = A.method_chain(lp.get('iter_node') or {})[1] if lp.get('iter_node') else \
+                [w for w in MEMBER_DROPPERS if re.search(r'\.%s\(' % w, re.sub(r'\s', '', lp.get('iter') or ''))]
+            for w in names:
+                if w in MEMBER_DROPPERS:
+                    dropped.append('.%s(..) on the loop over %s' % (w, re.sub(r'\s', '', lp.get('iter') or '')[:40]))
+        for ch in chains:
+            root, names = A.method_chain(ch)
+            for w in names:
+                if w in MEMBER_DROPPERS:
+                    dropped.append('.%s(..) in the iterator chain at line %s' % (w, ch.get('line', '?')))
+        rep.check(not dropped, 'R16.7', 'every-member-described|%s|%s' % (f.split('/')[-1], n['name']), '%s:%s' % (f, n.get('line')),
+                  'the walk over the declared fields / variants neither skips nor stops early',
+                  'a declared member can be left out of the description: %s' % '; '.join(dropped))
     if n_gen < 3:
         rep.bad('R16.2', 'declaration-order|floor', M, 'expected at least 3 generators walking fields / variants, found %d' % n_gen)
 
 
+MEMBER_DROPPERS = {'filter', 'filter_map', 'skip', 'skip_while', 'take', 'take_while', 'step_by', 'find', 'find_map', 'nth', 'last', 'flat_map'}
+
+
 def check(fx, rep, tier):
+    rep.rule('R16.7', 'every declared field / variant is described: the generators\' walks over the declaration neither skip (`continue`, filter, skip, take ..) nor stop early')
     rep.rule('R16.1', 'every impl of introspect::Type builds the IDL constructor the statement prescribes for its Rust type (table), composite impls describe their own parameter')
     rep.rule('R16.2', 'derive templates: name = identifier string, type = <FieldTy as Type>::TYPE, doc comments carried, members emitted in declaration order into one list')
     rep.rule('R16.3', 'rendering / parsing of assembled interfaces: rules of C14')
